@@ -36,9 +36,12 @@ def run_variant(v):
         src = _read(rel)
     except OSError:
         return dict(property=prop, name=name, status='stale', detail='file missing')
-    if src.count(old) != 1:
-        return dict(property=prop, name=name, status='stale', detail='pattern occurs %d times' % src.count(old))
-    overlay = {rel: src.replace(old, new)}
+    pairs = old if isinstance(old, (list, tuple)) else [(old, new)]
+    for o, n in pairs:
+        if src.count(o) != 1:
+            return dict(property=prop, name=name, status='stale', detail='pattern occurs %d times' % src.count(o))
+        src = src.replace(o, n)
+    overlay = {rel: src}
     try:
         compile(overlay[rel], rel, 'exec')
     except SyntaxError as e:
